@@ -48,6 +48,11 @@ class Run(object):
         self.ackd = 0           # messages of A acknowledged by B
         self.got = []           # indices in the order B.recv() returned them
         self.nsym = 0
+        # reverse direction (B -> A), used by the 'bidir' schedules
+        self.rmsgs = []         # messages B's application sent
+        self.rcrossed = 0       # I PDUs of B that crossed, in order
+        self.rgot = []          # what A's reader thread got from recv()
+        self.r0 = None          # initial V(S) of B
 
     def message(self, who):
         i = len(self.msgs)
@@ -62,6 +67,18 @@ class Run(object):
             for k in range(count):
                 i, m = self.message(who)
                 self.returned[i] = self.A.send(m, 0)
+            return True
+        return body
+
+    def reader(self, count):
+        """A's application thread that reads `count` messages with blocking
+        recv() while the senders of the same connection are blocked"""
+        def body():
+            for k in range(count):
+                r = self.A.recv()
+                self.rgot.append(r)
+                if r is None:
+                    break
             return True
         return body
 
@@ -125,7 +142,15 @@ class Run(object):
         q = pdu.decode(pdu.encode(p))
         if q.name == "FRMR":
             sx.check(False, "coop:frame-reject-from-receiver")
-        if q.name not in ("RR", "RNR"):
+        if q.name == "I" and self.rmsgs:
+            k = self.rcrossed
+            sx.check(q.ns == (self.r0 + k) % 16, "coop:reverse:wrong-send-sequence-number")
+            if k >= len(self.rmsgs):
+                sx.check(False, "coop:reverse:i-pdu-never-sent")
+            sx.check(same(sx, q.data, self.rmsgs[k]), "coop:reverse:i-pdu-altered-or-reordered")
+            self.rcrossed += 1
+            sx.reach("coop:wire:reverse-I")
+        elif q.name not in ("RR", "RNR"):
             sx.check(False, "coop:unexpected-pdu-from-receiver:" + q.name)
         new = (q.nr - (self.s0 + self.ackd)) % 16
         sx.check(new <= len(self.crossed) - self.ackd,
@@ -138,7 +163,7 @@ class Run(object):
         return q.name
 
 
-def two_senders(sx, count, first, sweep, late=False):
+def two_senders(sx, count, first, sweep, late=False, bidir=0):
     """count: messages per sender; first: which sender starts; sweep: 'one' =
     the link moves one PDU per direction between scheduling points, 'all' =
     everything that is queued; late: the second sender makes its first call
@@ -148,7 +173,7 @@ def two_senders(sx, count, first, sweep, late=False):
     tco.threading = coop.THREADING
     S = coop.new_threaded(sx)
     try:
-        return _two_senders(sx, S, count, first, sweep, late)
+        return _two_senders(sx, S, count, first, sweep, late, bidir)
     finally:
         S.current = 'setup'
         S.shutdown()
@@ -156,7 +181,7 @@ def two_senders(sx, count, first, sweep, late=False):
         coop.new_sched(sx)
 
 
-def _two_senders(sx, S, count, first, sweep, late=False):
+def _two_senders(sx, S, count, first, sweep, late=False, bidir=0):
     rw = sx.int("rw", 1, 3)
     s0 = sx.int("s0", 0, 15)
     r0 = sx.int("r0", 0, 15)
@@ -175,6 +200,21 @@ def _two_senders(sx, S, count, first, sweep, late=False):
             break
     nfill = len(run.msgs)
     sx.check(nfill == rw, "coop:window-not-filled-by-rw-sends")
+    if bidir:
+        # both directions at once: the peer's application has sent `bidir`
+        # messages (its window towards A is 1: they cross one per
+        # acknowledgement), a third thread of A reads them with blocking recv()
+        run.r0 = r0
+        for k in range(bidir):
+            m = sx.mkbytes([0x80 + k, sx.byte("rev%d" % k)], False)
+            try:
+                ok = B.send(m, DONTWAIT)
+            except nfc.llcp.Error as e:
+                sx.check(e.errno == errno.EWOULDBLOCK, "coop:reverse:fill-error")
+                break
+            run.rmsgs.append(m)
+        S.spawn('R', run.reader(len(run.rmsgs)))
+        sx.reach("coop:bidirectional")
     # both senders block on the full window
     S.spawn('T1', run.sender('T1', count))
     S.spawn('T2', run.sender('T2', count))
@@ -186,6 +226,8 @@ def _two_senders(sx, S, count, first, sweep, late=False):
     for name in order:
         if S.run(name) != 'parked':
             sx.check(False, "coop:send-did-not-wait-on-full-window")
+    if bidir:
+        S.run('R')                      # blocks in recv() (or finds a message)
     if S.waits == ["DataLinkConnection.send", "DataLinkConnection.send"]:
         sx.reach("coop:both-senders-wait-on-full-window")
     sched = []
@@ -245,6 +287,13 @@ def _two_senders(sx, S, count, first, sweep, late=False):
         if run.got.count(i) != 1:
             sx.check(False, "coop:accepted-message-not-delivered-exactly-once")
     sx.check(run.ackd == len(run.msgs), "coop:message-never-acknowledged")
+    if bidir:
+        sx.check(len(run.rgot) == len(run.rmsgs), "coop:reverse:reader-did-not-get-every-message")
+        for k, r in enumerate(run.rgot):
+            if r is None or k >= len(run.rmsgs):
+                sx.check(False, "coop:reverse:recv-returned-none-or-extra")
+            sx.check(same(sx, r, run.rmsgs[k]), "coop:reverse:recv-out-of-order-or-altered")
+        sx.reach("coop:reverse:drained")
     sx.reach("coop:drained")
     return dict(fill=nfill, sched=sched, crossed=run.crossed, got=run.got,
                 waits=len(S.waits))
@@ -260,6 +309,11 @@ def partitions(tier):
                     name="two_senders:%d:%s:%s" % (count, first, sweep),
                     fn="two_senders",
                     params=dict(count=count, first=first, sweep=sweep)))
+                if first == "T1" and sweep != "burst":
+                    parts.append(dict(
+                        name="two_senders:%d:bidir:%s" % (count, sweep),
+                        fn="two_senders",
+                        params=dict(count=count, first=first, sweep=sweep, bidir=2)))
                 if first == "T1":
                     parts.append(dict(
                         name="two_senders:%d:late:%s" % (count, sweep),
@@ -268,8 +322,8 @@ def partitions(tier):
     return parts
 
 
-MUST_REACH = ["coop:both-senders-wait-on-full-window", "coop:late-sender-races-woken-sender", "coop:wire:I",
+MUST_REACH = ["coop:bidirectional", "coop:wire:reverse-I", "coop:reverse:drained", "coop:both-senders-wait-on-full-window", "coop:late-sender-races-woken-sender", "coop:wire:I",
               "coop:wire:ack", "coop:senders-returned", "coop:drained"]
-BOUNDS = "two application threads in blocking send() on one established DataLinkConnection whose send window (RW of the peer symbolic 1..3, initial sequence variables of both directions symbolic 0..15) was filled by non-blocking sends; 1-2 (quick) / 1-3 (thorough) two-octet messages per thread; schedules: which thread blocks first (or: the second thread makes its first call at any later scheduling point, racing a sender that was just woken), which notified thread runs next at every wake-up, link transfers one PDU per direction, everything queued in alternation, or everything the sender has queued before the peer reads and answers, between scheduling points; a thread is descheduled only where it blocks in Condition.wait() (preemption bound 0)"
-OUTSIDE = ["preemption of a sender anywhere but at Condition.wait() (lock acquisitions, single lines); more than two senders; blocking recv()/close() racing the senders; the link run loop interleaved with a sender that is not blocked"]
+BOUNDS = "two application threads in blocking send() on one established DataLinkConnection whose send window (RW of the peer symbolic 1..3, initial sequence variables of both directions symbolic 0..15) was filled by non-blocking sends; 1-2 (quick) / 1-3 (thorough) two-octet messages per thread; schedules: which thread blocks first (or: the second thread makes its first call at any later scheduling point, racing a sender that was just woken), which notified thread runs next at every wake-up, link transfers one PDU per direction, everything queued in alternation, or everything the sender has queued before the peer reads and answers, between scheduling points; a thread is descheduled only where it blocks in Condition.wait() (preemption bound 0); 'bidir' schedules: the peer's application has two messages under way in the other direction and a third thread of this device reads them with blocking recv() while the two senders are blocked (both directions at once: reverse sequence numbers, order and content checked on the wire and at recv())"
+OUTSIDE = ["preemption of a sender anywhere but at Condition.wait() (lock acquisitions, single lines); more than two senders and one reader; blocking close() racing the senders; the link run loop interleaved with a sender that is not blocked"]
 ASSUMPTIONS = ["env.coop.ThreadSched: application threads are OS threads in strict alternation with the harness's main thread (link + peer application + scheduler); Condition.notify(n) wakes the first n waiters in FIFO order as threading.Condition does; no spurious wake-ups"]
